@@ -71,6 +71,7 @@ def required_counters(tier):
         "route.pickle": 400,
         "route.copy": 100,
         "route.deepcopy": 100, "roundtrips.two_hops": 300,
+        "loads_after_state_change": 30,
     }
 
 
@@ -327,6 +328,30 @@ def run_shard(rec, seed, shard, tier):
                                 if hh != origs[i][0]:
                                     rec.violation("meaning-changed", {"exprs": [x for x, _ in built], "index": i, "route": route, "how": how}, f"{route}: annotation #{i} {e_} loaded together with its siblings ({how}) accepts differently: {first_diff(origs[i][1], vv)}", mechanism=f"{route.rstrip('2345')}-siblings-collide")
                                     break
+            # the original's state changes BETWEEN dumps and loads (the one state change the library has: an old-style
+            # decorated generator function makes the annotation of its return value accept everything): loading the
+            # earlier bytes must leave the original exactly as it is at that moment
+            if k % 5 == 2 and isinstance(ann, type):
+                twin = try_build(expr)
+                try:
+                    blobs = {r_: dumps(r_, twin) for r_ in ("pickle4", "cloudpickle")}
+                    import typeguard
+
+                    import jaxtyping as _jt
+
+                    ns = {"jaxtyped": _jt.jaxtyped, "tc": typeguard.typechecked, "T_r": typing.Iterator[twin]}
+                    real.exec_src("@jaxtyped\n@tc\ndef g(n) -> T_r:\n    yield n\n", ns)
+                    hb, vb = vec_hash(twin)
+                    for r_, blob in blobs.items():
+                        pickle.loads(blob)
+                        ha, va = vec_hash(twin)
+                        rec.count("loads_after_state_change")
+                        rec.case((expr, r_, "load-after-state-change"), True)
+                        if ha != hb:
+                            rec.violation("original-changed", {"expr": expr, "route": r_, "scenario": "dumps, original changes state, loads"}, f"loading {r_} bytes made BEFORE the original {expr} changed state changed the original: {first_diff(vb, va)}", mechanism=f"{r_.rstrip('2345')}-loads-rewrites-original")
+                            break
+                except Exception as e:  # noqa
+                    rec.count("loads_after_state_change.skipped")
             # serialising / loading must not change the original
             h2, v2 = vec_hash(ann)
             rec.count("originals_rechecked")
